@@ -7,6 +7,7 @@
 (*   pure  : the argument values are unchanged by the call (C12, C15)      *)
 (*   wf    : a produced value is well formed (C02)                         *)
 (*   raise : the call did not raise (C01)                                  *)
+(*   fresh : the result is not an object handed out by an earlier call     *)
 (* One initial state per row (wide and shallow), verdicts are total: every *)
 (* rejected row prints <<"REJECT", id, clause, expected>>.                 *)
 (***************************************************************************)
@@ -23,6 +24,8 @@ Check(o) ==
   /\ IF o.res = ERR THEN Reject(o, "raise", e) ELSE TRUE
   /\ IF o.res # ERR /\ e # o.res THEN Reject(o, "apply", e) ELSE TRUE
   /\ IF o.a # o.a2 THEN Reject(o, "pure", o.a2) ELSE TRUE
+  \* a production builds a fresh value: an object it handed out before is shared between partial parses / streams
+  /\ IF o.alias = 1 THEN Reject(o, "result-object-shared", o.res) ELSE TRUE
   /\ IF o.res \notin {ERR, FAIL} /\ ~WellFormed(o.res) THEN Reject(o, "wf", o.res) ELSE TRUE
 
 \* the batch is deserialised once into a TLC register (a plain reference to Obs re-reads the
